@@ -13,9 +13,10 @@ case "$CHANGE" in
   -R:*) git -C /repo show "${CHANGE#-R:}" | (cd "$SCR/repo" && patch -R -p1 -s) || { echo "$NAME: cannot revert"; exit 2; } ;;
   *) (cd "$SCR/repo" && patch -p1 -s < "$CHANGE") || { echo "$NAME: cannot apply"; exit 2; } ;;
 esac
-sed "s#=> /repo#=> $SCR/repo#" "$HERE/harness/go.mod" > "$SCR/go.mod"
-cp "$HERE/harness/go.sum" "$SCR/go.sum"
-cd "$HERE/harness"
+rsync -a "$HERE/harness/" "$SCR/harness/"   # a private snapshot: editing /verif/harness meanwhile is harmless
+sed "s#=> /repo#=> $SCR/repo#" "$SCR/harness/go.mod" > "$SCR/go.mod"
+cp "$SCR/harness/go.sum" "$SCR/go.sum"
+cd "$SCR/harness"
 if ! go build -modfile="$SCR/go.mod" -tags verif -o "$SCR/vcheck" ./cmd/vcheck > "$SCR/build.log" 2>&1; then
   echo "$NAME: BUILD FAILED"; head -5 "$SCR/build.log"; exit 2
 fi
